@@ -63,6 +63,7 @@ template <class C> static void cpp_cipher_history(void *mem, const Pub &p, const
     o->encrypt(c.p, m.p, m.n, a.p, a.n);
     if (p.flags & 2) { Buf back(s.msg.size()); o->set_nonce(n.p, 16); o->decrypt(back.p, c.p, c.n, a.p, a.n); }
     if (p.end == 0) { o->clear(); /* object stays alive: its bytes are inspected, then it is destroyed */ }
+    else if (p.end == 2) { ascon::aead *base = o; base->~aead(); }    // destroyed the way delete / unique_ptr<ascon::aead> does it
     else o->~C();
     (void)isap;
 }
@@ -142,7 +143,7 @@ static rc::Gen<KV> gen_wipe() {
                                            rc::gen::container<Bytes>(2 * (40 + 200 + 96 + 64), rc::gen::resize(rc::kNominalSize, rc::gen::arbitrary<uint8_t>()))),
                             [type, msglen](std::tuple<Bytes, Bytes, std::vector<uint64_t>, size_t, uint16_t, bool, Bytes> t) {
             KV c; c["type"] = num(type); c["msglen"] = num(msglen); c["nonce"] = hex(std::get<0>(t)); c["ad"] = hex(std::get<1>(t)); c["chunks"] = numlist(std::get<2>(t));
-            c["outlen"] = num(std::get<3>(t)); c["flags"] = num(std::get<4>(t)); c["end"] = num(std::get<5>(t) ? 1 : 0); c["secrets"] = hex(std::get<6>(t));
+            c["outlen"] = num(std::get<3>(t)); c["flags"] = num(std::get<4>(t)); c["end"] = num(std::get<5>(t) ? 1 + (std::get<4>(t) >> 15) : 0); c["secrets"] = hex(std::get<6>(t));
             return c; });
     });
 }
@@ -151,7 +152,7 @@ static bool classify_wipe(const KV &c, std::vector<std::string> &tags) {
     if ((type == T_HKDF || type == T_HKDFA) && (tonum(c, "flags") & 4)) tags.push_back((tonum(c, "flags") & 8) ? "hkdf-stream-nearly-used-up" : "hkdf-stream-used-up");
     if (type == T_RANDOM && (tonum(c, "flags") & 24) == 24) tags.push_back("prng-past-reseed-limit");
     tags.push_back(std::string("type=") + TNAME[type]);
-    if (type >= T_CPP_AEAD0 && type <= T_CPP_ISAP2) tags.push_back(tonum(c, "end") ? "end=destructor" : "end=clear()");
+    if (type >= T_CPP_AEAD0 && type <= T_CPP_ISAP2) tags.push_back(tonum(c, "end") == 2 ? "end=destructor-through-base-class" : tonum(c, "end") ? "end=destructor" : "end=clear()");
     return true;   // every history contains at least one keyed / absorbing operation
 }
 static Sec make_sec(const Bytes &all, int which, size_t msglen) {
